@@ -225,15 +225,15 @@ def main():
             {"name": "factdb", "path": "/verif/factdb", "serves_properties": sorted(CLAIMS),
              "kind_free_text": "rustc_private driver: serialises MIR (pre coroutine transform), ADT/impl/layout facts of every workspace crate"},
             {"name": "rules", "path": "/verif/rules", "serves_properties": sorted(CLAIMS),
-             "kind_free_text": "python rule evaluators over the facts: dominators, post-dominators, loops, def-use, censuses"},
+             "kind_free_text": "python rule evaluators over the facts: dominators, post-dominators, loops, def-use, censuses; the facts are normalised first (lib/inline.py: functions outside the reviewed census are spliced into their callers; lib/thread.py: jump threading over boolean flags; moved / renamed items keep their reviewed path)"},
             {"name": "cxxfacts", "path": "/verif/lib/cxx.py", "serves_properties": ["C17"],
-             "kind_free_text": "clang++ -fsyntax-only record layouts and filtered JSON AST of cpp/include/*.h + the cbindgen headers of the same build"},
+             "kind_free_text": "clang++ -fsyntax-only record layouts and filtered JSON AST of cpp/include/*.h + the cbindgen headers of the same build; private parameterless helper members are substituted at their call statements and scalar const locals folded before the protocol rules run"},
             {"name": "selftest", "path": "/verif/mutants", "serves_properties": sorted(CLAIMS),
              "kind_free_text": "scratch-copy mutants each rule must report (thorough tier; recorded in evidence)"},
         ],
         "checks": checks,
         "not_applicable": na,
-        "notes": "Static analysis only. Six genuine defects were repaired by fix: commits in /repo (see known_findings.json); "
+        "notes": "Static analysis only. Genuine defects were repaired by 13 fix: commits in /repo (recorded as fixed: entries); D7 and D15 are listed known findings (see known_findings.json and DESIGN.md section 5); "
                  "exit 2 = checker could not run (tree does not compile), never a verdict.",
     }
     json.dump(m, open(os.path.join(V, "MANIFEST.json"), "w"), indent=1)
